@@ -34,6 +34,7 @@ package binary
 //@   ensures(pos) err == nil ==> rpos(sr.reader) == old(rpos(sr.reader)) + 1 && rpos(sr.reader) <= rlen(sr.reader)
 //@   ensures(val) err == nil ==> result == int8(rin(sr.reader)[old(rpos(sr.reader))])
 //@   ensures(mono) rpos(sr.reader) >= old(rpos(sr.reader)) && rpos(sr.reader) <= old(rpos(sr.reader)) + 1
+//@   ensures(complete) old(rpos(sr.reader)) + 1 <= rlen(sr.reader) ==> err == nil
 //@   ensures(valid) validSR(sr)
 
 //@ contract (*StreamReader).ReadInt16
@@ -44,6 +45,7 @@ package binary
 //@   ensures(pos) err == nil ==> rpos(sr.reader) == old(rpos(sr.reader)) + 2 && rpos(sr.reader) <= rlen(sr.reader)
 //@   ensures(val) err == nil ==> result == int16(be16at(rin(sr.reader), old(rpos(sr.reader))))
 //@   ensures(mono) rpos(sr.reader) >= old(rpos(sr.reader)) && rpos(sr.reader) <= old(rpos(sr.reader)) + 2
+//@   ensures(complete) old(rpos(sr.reader)) + 2 <= rlen(sr.reader) ==> err == nil
 //@   ensures(valid) validSR(sr)
 
 //@ contract (*StreamReader).ReadInt32
@@ -54,6 +56,7 @@ package binary
 //@   ensures(pos) err == nil ==> rpos(sr.reader) == old(rpos(sr.reader)) + 4 && rpos(sr.reader) <= rlen(sr.reader)
 //@   ensures(val) err == nil ==> result == int32(be32at(rin(sr.reader), old(rpos(sr.reader))))
 //@   ensures(mono) rpos(sr.reader) >= old(rpos(sr.reader)) && rpos(sr.reader) <= old(rpos(sr.reader)) + 4
+//@   ensures(complete) old(rpos(sr.reader)) + 4 <= rlen(sr.reader) ==> err == nil
 //@   ensures(valid) validSR(sr)
 
 //@ contract (*StreamReader).ReadInt64
@@ -64,6 +67,7 @@ package binary
 //@   ensures(pos) err == nil ==> rpos(sr.reader) == old(rpos(sr.reader)) + 8 && rpos(sr.reader) <= rlen(sr.reader)
 //@   ensures(val) err == nil ==> result == int64(be64at(rin(sr.reader), old(rpos(sr.reader))))
 //@   ensures(mono) rpos(sr.reader) >= old(rpos(sr.reader)) && rpos(sr.reader) <= old(rpos(sr.reader)) + 8
+//@   ensures(complete) old(rpos(sr.reader)) + 8 <= rlen(sr.reader) ==> err == nil
 //@   ensures(valid) validSR(sr)
 
 //@ contract (*StreamReader).ReadDouble
@@ -73,6 +77,7 @@ package binary
 //@   modifies sr.buffer, rpos(sr.reader)
 //@   ensures(pos) err == nil ==> rpos(sr.reader) == old(rpos(sr.reader)) + 8
 //@   ensures(val) err == nil ==> bits(result) == be64at(rin(sr.reader), old(rpos(sr.reader)))
+//@   ensures(complete) old(rpos(sr.reader)) + 8 <= rlen(sr.reader) ==> err == nil
 //@   ensures(valid) validSR(sr)
 
 //@ contract (*StreamReader).ReadBool
@@ -83,6 +88,7 @@ package binary
 //@   ensures(pos) err == nil ==> rpos(sr.reader) == old(rpos(sr.reader)) + 1
 //@   ensures(strict) err == nil ==> rin(sr.reader)[old(rpos(sr.reader))] == 0 || rin(sr.reader)[old(rpos(sr.reader))] == 1
 //@   ensures(val) err == nil ==> (result <==> rin(sr.reader)[old(rpos(sr.reader))] == 1)
+//@   ensures(complete) old(rpos(sr.reader)) + 1 <= rlen(sr.reader) && (rin(sr.reader)[old(rpos(sr.reader))] == 0 || rin(sr.reader)[old(rpos(sr.reader))] == 1) ==> err == nil
 //@   ensures(valid) validSR(sr)
 
 //@ contract (*StreamReader).readBytes
@@ -96,6 +102,7 @@ package binary
 //@   ensures(bytes) err == nil ==> forall(k, 0, int64(length), result[k] == rin(sr.reader)[p0 + k])
 //@   ensures(pos) err == nil ==> rpos(sr.reader) == p0 + int64(length)
 //@   ensures(mono) rpos(sr.reader) >= p0
+//@   ensures(complete) p0 + int64(length) <= rlen(sr.reader) ==> err == nil
 //@   ensures(valid) validSR(sr)
 
 //@ contract (*StreamReader).ReadBinary
@@ -110,6 +117,7 @@ package binary
 //@   ensures(pos) err == nil ==> rpos(sr.reader) == p0 + 4 + len(result)
 //@   ensures(nonnil) err == nil ==> result != nil
 //@   ensures(mono) rpos(sr.reader) >= p0
+//@   ensures(complete) p0 + 4 <= rlen(sr.reader) && int32(be32at(rin(sr.reader), p0)) >= 0 && p0 + 4 + int64(int32(be32at(rin(sr.reader), p0))) <= rlen(sr.reader) ==> err == nil
 //@   ensures(valid) validSR(sr)
 
 //@ contract (*StreamReader).ReadFieldBegin
@@ -122,6 +130,7 @@ package binary
 //@   ensures(stoppos) err == nil && !ok ==> rpos(sr.reader) == p0 + 1
 //@   ensures(hdr) err == nil && ok ==> rpos(sr.reader) == p0 + 3 && fh.Type == int8(rin(sr.reader)[p0]) && fh.ID == int16(be16at(rin(sr.reader), p0 + 1))
 //@   ensures(mono) rpos(sr.reader) >= p0
+//@   ensures(complete) p0 + 1 <= rlen(sr.reader) && (rin(sr.reader)[p0] == 0 || p0 + 3 <= rlen(sr.reader)) ==> err == nil
 //@   ensures(valid) validSR(sr)
 
 //@ contract (*StreamReader).readTypeSizeHeader
@@ -176,7 +185,7 @@ package binary
 //@   ensures validSR(self)
 
 //@ contract (*StreamReader).discardStream
-//@   props C03
+//@   props C03 C13
 //@   nopanic
 //@   requires n >= 0 && validSR(sr)
 //@   modifies rpos(sr.reader), wout(io.Discard), wlen(io.Discard)
@@ -185,7 +194,7 @@ package binary
 //@   ensures(refine3) validSR(sr)
 
 //@ contract (*StreamReader).discardSeek
-//@   props C03
+//@   props C03 C13
 //@   nopanic
 //@   requires n >= 0 && validSR(sr) && sr._seeker != nil && ref(sr._seeker) == ref(sr.reader)
 //@   modifies rpos(sr.reader)
@@ -194,7 +203,7 @@ package binary
 //@   ensures(refine3) validSR(sr)
 
 //@ contract (*StreamReader).Skip
-//@   props C03 C05
+//@   props C03 C05 C13
 //@   nopanic
 //@   requires validSR(sr)
 //@   let p0 = rpos(sr.reader)
@@ -205,7 +214,7 @@ package binary
 //@   ensures(valid) validSR(sr)
 
 //@ contract (*StreamReader).skipStruct
-//@   props C03 C05
+//@   props C03 C05 C13
 //@   nopanic
 //@   requires validSR(sr)
 //@   let p0 = rpos(sr.reader)
@@ -219,7 +228,7 @@ package binary
 //@   ensures(valid) validSR(sr)
 
 //@ contract (*StreamReader).skipMap
-//@   props C03 C05
+//@   props C03 C05 C13
 //@   nopanic
 //@   requires validSR(sr)
 //@   let p0 = rpos(sr.reader)
@@ -229,7 +238,7 @@ package binary
 //@   ensures(valid) validSR(sr)
 
 //@ contract (*StreamReader).skipList
-//@   props C03 C05
+//@   props C03 C05 C13
 //@   nopanic
 //@   requires validSR(sr)
 //@   let p0 = rpos(sr.reader)
@@ -239,7 +248,7 @@ package binary
 //@   ensures(valid) validSR(sr)
 
 //@ contract (*StreamReader).skipListItems
-//@   props C03 C05
+//@   props C03 C05 C13
 //@   nopanic
 //@   requires validSR(sr) && size >= 0 && size <= 2147483647
 //@   let p0 = rpos(sr.reader)
@@ -254,7 +263,7 @@ package binary
 //@   ensures(valid) validSR(sr)
 
 //@ contract (*StreamReader).skipMapItems
-//@   props C03 C05
+//@   props C03 C05 C13
 //@   nopanic
 //@   requires validSR(sr) && size >= 0
 //@   let p0 = rpos(sr.reader)
